@@ -23,12 +23,12 @@ def _eff_stub(name):
     return stub
 
 
-def leaves(ctx, state):
-    key = f"c07:{state}"
+def leaves(ctx, state, control_frame=None):
+    key = f"c07:{state}:{control_frame!r}"
     if key not in ctx.cache:
         I = Interp(ctx.index, recv_config(extra_stubs={"_core:WebSocket.send_close": _eff_stub("send_close"),
                                                        "_core:WebSocket.pong": _eff_stub("pong")}))
-        outs = explore_recv(ctx, I, "recv_data_frame", state)
+        outs = explore_recv(ctx, I, "recv_data_frame", state, control_frame=control_frame)
         ctx.cache[key] = (I, outs)
     return ctx.cache[key]
 
@@ -106,29 +106,26 @@ def r1(ctx):
 def r2(ctx):
     loc = ctx.index.loc(ctx.index.func(Q).node)
     for state in ("idle", "text", "binary"):
-        I, outs = leaves(ctx, state)
         seen = {True: 0, False: 0}
         bad = []
-        for o in outs:
-            d = frame_dims(I, o)
-            if d is None or o.kind == "raise" or not (d["opcode"].lo == d["opcode"].hi and d["opcode"].lo in (9, 10)):
-                continue
-            is_pong = d["opcode"].lo == 10
-            cf = o.run.facts.get(Sym("control_frame", "bool").key())
-            flag = cf.truth if cf else None
-            pongs = [e for e in o.effects if e.name == "pong"]
-            if flag is None:
-                # the flag was never consulted on this path: must then be a path that loops on
-                flag = False
-            seen[flag] += 1
-            want_kind = "return" if flag else "backedge"
-            if len(pongs) != (0 if is_pong else 1) or o.kind != want_kind:
-                bad.append((flag, o))
+        # the caller's flag is explored as each constant: a path that never consults it still belongs to a definite request
+        for flag, cfv in ((True, TRUE), (False, FALSE)):
+            I, outs = leaves(ctx, state, cfv)
+            for o in outs:
+                d = frame_dims(I, o)
+                if d is None or o.kind == "raise" or not (d["opcode"].lo == d["opcode"].hi and d["opcode"].lo in (9, 10)):
+                    continue
+                is_pong = d["opcode"].lo == 10
+                pongs = [e for e in o.effects if e.name == "pong"]
+                seen[flag] += 1
+                want_kind = "return" if flag else "backedge"
+                if len(pongs) != (0 if is_pong else 1) or o.kind != want_kind:
+                    bad.append((flag, o))
         if not seen[True] or not seen[False]:
             raise AnalysisError(f"state {state}: control_frame on/off not both explored {seen}")
         ctx.ob(f"{Q}:{state}:control-frames-reported-iff-requested", not bad,
                f"pings answered and pings/pongs reported on {seen[True]} reporting paths, consumed silently on {seen[False]} others" if not bad else
-               f"with control_frame={bad[0][0]} a ping/pong path ends as {bad[0][1].kind} with {len([e for e in bad[0][1].effects if e.name == 'pong'])} pongs written: "
+               f"with control_frame={bad[0][0]} a {'pong' if frame_dims(I, bad[0][1])['opcode'].lo == 10 else 'ping'} path ends as {bad[0][1].kind} with {len([e for e in bad[0][1].effects if e.name == 'pong'])} pongs written: "
                f"every ping is answered once and, when control frames are requested, every ping and pong is handed to the caller in every reassembly state",
                loc, {"path": path_text(bad[0][1])} if bad else None)
 
